@@ -734,6 +734,9 @@ class Interp:
             root = p.split('.')[0]
             if p in lspec.havoc or root in lspec.havoc or (root in names and self._fresh_in_body(root, s.body)):
                 continue
+            # the body writes state outside the frame of the loop contract: a named (auxiliary) obligation, refuted wherever the loop is reachable;
+            # execution cannot go on without a contract for that state
+            self.ctx.check('%s.frame.writes_only_declared_state[%s]' % (tag, p), False, 'auxiliary')
             raise Unsupported('%s: loop mutates %s which the loop contract does not declare' % (tag, p))
         for name, f in lspec.inv(self, fr.env, None, None).items():
             ctx.check('%s.inv.%s.entry' % (tag, name), f, lspec.kind, where='%s:%d' % (fr.fi.file, s.lineno))
@@ -852,6 +855,9 @@ class Interp:
                 raise Unsupported('%s: in-place mutation through a complex receiver' % tag)
             if root in names and self._fresh_in_body(root, wrapper.body):
                 continue
+            # the body writes state outside the frame of the loop contract: a named (auxiliary) obligation, refuted wherever the loop is reachable;
+            # execution cannot go on without a contract for that state
+            self.ctx.check('%s.frame.writes_only_declared_state[%s]' % (tag, p), False, 'auxiliary')
             raise Unsupported('%s: loop mutates %s which the loop contract does not declare' % (tag, p))
         enum_start = None
         if isinstance(it, Enumerated):
@@ -997,6 +1003,9 @@ class Interp:
         if nm in fr.env:
             v = fr.env[nm]
             if isinstance(v, Poison):
+                # a local assigned by an earlier iteration (or before the loop and reassigned in it) is read although the loop contract does not
+                # carry it: the iteration depends on undeclared state of other iterations
+                self.ctx.check('loopframe.reads_only_declared_carried_state[%s@%d]' % (nm, e.lineno), False, 'auxiliary')
                 raise Unsupported('read of loop-havocked local %s (line %d)' % (nm, e.lineno))
             return v
         return self.global_name(nm, fr, e)
